@@ -37,8 +37,32 @@ VEC_KEYS = ('spike_samples', 'spike_templates', 'spike_clusters', 'amplitudes', 
             'spike_times_sec')
 
 
+def expanded(spec):
+    """`pad_spikes: N` in a spec stands for N spikes: the listed ones followed by deterministic filler
+    spikes (keeps cases with tens of thousands of spikes small on disk and in replays)."""
+    n = spec.get('pad_spikes')
+    if not n or n <= len(spec['spike_samples']):
+        return spec
+    out = dict(spec)
+    k0 = len(spec['spike_samples'])
+    nt = len(spec['templates'])
+    last = spec['spike_samples'][-1] if k0 else 0
+    extra = range(n - k0)
+    out['spike_samples'] = list(spec['spike_samples']) + [last + 1 + i for i in extra]
+    fill_t = [(i * 7 + 3) % nt for i in extra]
+    out['spike_templates'] = list(spec['spike_templates']) + fill_t
+    if spec.get('spike_clusters') is not None:
+        out['spike_clusters'] = list(spec['spike_clusters']) + fill_t
+    if spec.get('amplitudes') is not None:
+        out['amplitudes'] = list(spec['amplitudes']) + [1.0] * (n - k0)
+    if spec.get('spike_times_sec') is not None:
+        raise ValueError('pad_spikes with spike_times_sec is not supported')
+    return out
+
+
 def write_dataset(d, spec):
     """Write the dataset described by spec into directory d; returns the params.py path."""
+    spec = expanded(spec)
     d = Path(d)
     d.mkdir(parents=True, exist_ok=True)
     names = ALF_NAMES if spec.get('alf') else KS_NAMES
